@@ -238,6 +238,13 @@ Fixpoint del_loop (c : str) (rargs : list str) (todo : list netinfo) (k : nat) (
       (mk_entry DEL c rargs ni (ni_prev ni) :: es, if nth_bool fd k then ni :: fails else fails)
   end.
 
+(** the elements of [l] whose DEL (ordinals [k], [k+1], ..) fails under the script [fd] *)
+Fixpoint failed_of {A} (l : list A) (k : nat) (fd : list bool) : list A :=
+  match l with
+  | [] => []
+  | x :: r => if nth_bool fd k then x :: failed_of r (S k) fd else failed_of r (S k) fd
+  end.
+
 (** CmdDel cmdArgs lastIdx: consume the file, DEL from [last] down to 0, save the failed ones again *)
 Definition cmd_del (c : str) (rargs : list str) (last : option nat) (fd : list bool) (sv : saved_map)
   : saved_map * list entry * bool :=
@@ -290,3 +297,97 @@ Fixpoint run (fl : flags) (cf : conf) (rq : str -> preq) (st : state) (h : list 
                let '(st2, outs) := run fl cf rq st1 h' in (st2, (es, res) :: outs)
   end.
 Definition run_log fl cf rq st h : list entry := List.concat (map fst (snd (run fl cf rq st h))).
+
+(** ** interleaving semantics: a request is a sequence of atomic steps (state-file operations and
+    plugin executions); [mstep] is one atomic step of the request thread of container [c] *)
+Inductive tstate :=
+| TAddStart (fa fd : list bool)                                   (* resolveNetworks + saveNetworkInfo *)
+| TAdding (todo : list netinfo) (pos : nat) (prev : option origin) (fa fd : list bool)   (* DelegateAdd *)
+| TDelStart (last : option nat) (fd : list bool) (rollback : bool)          (* consumeNetworkInfo *)
+| TDeleting (todo : list netinfo) (k : nat) (fails : list netinfo) (fd : list bool) (rollback : bool)
+                                                                  (* DelegateDel; at the end saveNetworkInfo *)
+| TDone (res : outcome).
+
+Definition del_result (rollback : bool) : outcome := if rollback then RErr else ROk.
+
+Definition mstep (fl : flags) (cf : conf) (rq : str -> preq) (c : str) (ts : tstate) (st : state)
+  : tstate * state * list entry :=
+  match ts with
+  | TAddStart fa fd =>
+      match resolve_networks fl cf (rq c) (shared st) with
+      | Err => (TDone RErr, st, [])
+      | Panic => (TDone RPanic, st, [])
+      | Ok [] => (TDone RErr, st, [])
+      | Ok infos => (TAdding infos 0 None fa fd, {| saved := sv_set (saved st) c infos; shared := shared st |}, [])
+      end
+  | TAdding [] _ _ _ _ => (TDone ROk, st, [])
+  | TAdding (ni :: rest) pos prev fa fd =>
+      let writes := negb (netconf_copied fl) && ni_shared ni in
+      let sh1 := match prev with Some o => if writes then sh_set (shared st) (ni_tag ni) o else shared st
+                 | None => shared st end in
+      let sent := match prev with
+                  | Some o => Some o
+                  | None => if writes then sh_get (shared st) (ni_tag ni) else None
+                  end in
+      let st1 := {| saved := saved st; shared := sh1 |} in
+      let e := mk_entry ADD c (r_args (rq c)) ni sent in
+      if nth_bool fa pos then (TDelStart (Some pos) fd true, st1, [e])
+      else match rest with
+           | [] => (TDone ROk, st1, [e])
+           | _ => (TAdding rest (S pos) (Some (c, pos)) fa fd, st1, [e])
+           end
+  | TDelStart last fd rb =>
+      match sv_get (saved st) c with
+      | None => (TDone (del_result rb), st, [])
+      | Some infos =>
+          let upto := match last with Some i => firstn (S i) infos | None => infos end in
+          (TDeleting (rev upto) 0 [] fd rb, {| saved := sv_del (saved st) c; shared := shared st |}, [])
+      end
+  | TDeleting [] _ fails _ rb =>
+      match fails with
+      | [] => (TDone (del_result rb), st, [])
+      | _ => (TDone RErr, {| saved := sv_set (saved st) c fails; shared := shared st |}, [])
+      end
+  | TDeleting (ni :: rest) k fails fd rb =>
+      (TDeleting rest (S k) (if nth_bool fd k then ni :: fails else fails) fd rb, st,
+       [mk_entry DEL c (r_args (rq c)) ni (ni_prev ni)])
+  | TDone r => (TDone r, st, [])
+  end.
+
+Definition start_of (o : op) : tstate :=
+  match o with Add _ fa fd => TAddStart fa fd | Del _ fd => TDelStart None fd false end.
+
+(** [n] steps of one thread alone *)
+Fixpoint trun (fl : flags) (cf : conf) (rq : str -> preq) (c : str) (n : nat) (ts : tstate) (st : state)
+  : tstate * state * list entry :=
+  match n with
+  | O => (ts, st, [])
+  | S n' => let '(ts1, st1, es1) := mstep fl cf rq c ts st in
+            let '(ts2, st2, es2) := trun fl cf rq c n' ts1 st1 in (ts2, st2, es1 ++ es2)
+  end.
+
+(** the request threads in flight, at most one per container id *)
+Definition pool := list (str * tstate).
+Fixpoint p_get (p : pool) (c : str) : option tstate :=
+  match p with
+  | [] => None
+  | (k, v) :: r => if str_eqb k c then Some v else p_get r c
+  end.
+Fixpoint p_set (p : pool) (c : str) (ts : tstate) : pool :=
+  match p with
+  | [] => []
+  | (k, v) :: r => if str_eqb k c then (k, ts) :: r else (k, v) :: p_set r c ts
+  end.
+
+(** a schedule names, step by step, the container whose thread moves *)
+Fixpoint prun (fl : flags) (cf : conf) (rq : str -> preq) (sched : list str) (p : pool) (st : state)
+  : pool * state * list entry :=
+  match sched with
+  | [] => (p, st, [])
+  | c :: sched' =>
+      match p_get p c with
+      | None => prun fl cf rq sched' p st
+      | Some ts => let '(ts1, st1, es1) := mstep fl cf rq c ts st in
+                   let '(p2, st2, es2) := prun fl cf rq sched' (p_set p c ts1) st1 in (p2, st2, es1 ++ es2)
+      end
+  end.
